@@ -30,10 +30,11 @@ Qed.
 Definition map_ok (pipes : list pipeline) (m : amap) : Prop :=
   forall mk i, In (mk, i) m -> exists p, nth_error pipes i = Some p /\ mk = merged_key (p_keys p).
 
-(* every pipeline was built from its own keys *)
+(* every pipeline was built from its own keys: id, tag, and the label values of its metric creator *)
 Definition pipes_ok (parts : list tpart) (pipes : list pipeline) : Prop :=
   forall i p, nth_error pipes i = Some p ->
-    p_id p = pipeline_id (p_keys p) /\ build_tag parts (p_keys p) = Ok (p_tag p).
+    p_id p = pipeline_id (p_keys p) /\ build_tag parts (p_keys p) = Ok (p_tag p) /\
+    p_labels p = metric_label_values (p_keys p).
 
 (* every pipeline is registered in the global map under its merged key *)
 Definition complete (g : gstate) : Prop :=
@@ -72,7 +73,8 @@ Qed.
 
 (* a record with keys ks is served by pipeline number i *)
 Definition served_by (parts : list tpart) (pipes : list pipeline) (ks : list bytes) (i : nat) : Prop :=
-  exists p, nth_error pipes i = Some p /\ p_keys p = ks /\ p_id p = pipeline_id ks /\ build_tag parts ks = Ok (p_tag p).
+  exists p, nth_error pipes i = Some p /\ p_keys p = ks /\ p_id p = pipeline_id ks /\ build_tag parts ks = Ok (p_tag p) /\
+            p_labels p = metric_label_values ks.
 
 Lemma served_by_ext : forall parts pipes ext ks i, served_by parts pipes ks i -> served_by parts (pipes ++ ext) ks i.
 Proof.
@@ -85,7 +87,7 @@ Lemma map_ok_lookup : forall parts pipes m ks i,
 Proof.
   intros parts pipes m ks i Hm Hp Hl. apply lookup_In in Hl.
   destruct (Hm _ _ Hl) as [p [Hn Hk]]. apply merged_key_injective_lemma in Hk. subst ks.
-  destruct (Hp _ _ Hn) as [Hid Htag]. exists p. auto.
+  destruct (Hp _ _ Hn) as [Hid [Htag Hlab]]. exists p. auto.
 Qed.
 
 Lemma complete_unique : forall g i j p q,
@@ -110,7 +112,7 @@ Proof.
     split; [assumption|]. split; [assumption|]. split; [assumption|]. eapply map_ok_lookup; eassumption.
   - unfold new_pipeline, obind in H. destruct (build_tag parts ks) as [tag| |] eqn:Htag; try discriminate.
     inversion H; subst; clear H. cbn [g_pipes g_map].
-    set (p := {| p_keys := ks; p_id := pipeline_id ks; p_tag := tag |}).
+    set (p := {| p_keys := ks; p_id := pipeline_id ks; p_tag := tag; p_labels := metric_label_values ks |}).
     assert (Hnew : nth_error (g_pipes g ++ [p]) (length (g_pipes g)) = Some p).
     { rewrite nth_error_app2 by lia. rewrite Nat.sub_diag. reflexivity. }
     split; [exists [p]; reflexivity|]. split; [|split; [|split]].
@@ -121,14 +123,14 @@ Proof.
       * rewrite nth_error_app1 in Hq by exact Hlt. exact (Hp _ _ Hq).
       * rewrite nth_error_app2 in Hq by exact Hge.
         destruct (i - length (g_pipes g))%nat as [|k]; cbn in Hq; [|destruct k; discriminate].
-        inversion Hq; subst q. cbn. split; [reflexivity|exact Htag].
+        inversion Hq; subst q. cbn. split; [reflexivity|split; [exact Htag|reflexivity]].
     + intros i q Hq. cbn [g_pipes g_map] in *. destruct (Nat.lt_ge_cases i (length (g_pipes g))) as [Hlt|Hge].
       * rewrite nth_error_app1 in Hq by exact Hlt. pose proof (Hc _ _ Hq) as Hq'.
         rewrite lookup_cons_ne; [exact Hq'|]. intros Heq. rewrite Heq in Hq'. rewrite Hl in Hq'. discriminate.
       * rewrite nth_error_app2 in Hq by exact Hge.
         destruct (i - length (g_pipes g))%nat as [|k] eqn:Hd; cbn in Hq; [|destruct k; discriminate].
         inversion Hq; subst q. cbn [p_keys p]. rewrite lookup_cons_eq. f_equal. lia.
-    + exists p. split; [exact Hnew|]. cbn. auto.
+    + exists p. split; [exact Hnew|]. cbn. auto 6.
 Qed.
 
 (* ---------- LocalCachedMap.GetOrCreate ---------- *)
@@ -294,24 +296,27 @@ Qed.
 
 Definition mset_ok (m : mstate) : Prop :=
   (forall mk i, In (mk, i) (m_map m) -> exists ks, nth_error (m_sets m) i = Some ks /\ mk = merged_key ks) /\
-  (forall i ks, nth_error (m_sets m) i = Some ks -> lookup (merged_key ks) (m_map m) = Some i).
+  (forall i ks, nth_error (m_sets m) i = Some ks -> lookup (merged_key ks) (m_map m) = Some i) /\
+  (* the counters of every entry carry the label values made from the entry's own key values *)
+  m_labels m = map metric_label_values (m_sets m).
 
 Lemma mset_ok_init : mset_ok m_init.
-Proof. split; cbn; [intros mk i []|intros [|i] ks H; discriminate]. Qed.
+Proof. split; [|split]; cbn; [intros mk i []|intros [|i] ks H; discriminate|reflexivity]. Qed.
 
 Lemma metric_select_spec : forall m ks m' i,
   mset_ok m -> metric_select m ks = (m', i) ->
   mset_ok m' /\ (exists ext, m_sets m' = m_sets m ++ ext) /\ nth_error (m_sets m') i = Some ks.
 Proof.
-  intros m ks m' i [H1 H2] H. unfold metric_select in H.
+  intros m ks m' i [H1 [H2 H3]] H. unfold metric_select in H.
   destruct (lookup (merged_key ks) (m_map m)) as [j|] eqn:Hl.
-  - inversion H; subst. split; [split; assumption|]. split; [exists []; rewrite app_nil_r; reflexivity|].
+  - inversion H; subst. split; [split; [|split]; assumption|]. split; [exists []; rewrite app_nil_r; reflexivity|].
     apply lookup_In in Hl. destruct (H1 _ _ Hl) as [ks' [Hn Hk]].
     apply merged_key_injective_lemma in Hk. subst. exact Hn.
-  - inversion H; subst; clear H. cbn [m_sets m_map].
+  - inversion H; subst; clear H. cbn [m_sets m_map m_labels].
     assert (Hnew : nth_error (m_sets m ++ [ks]) (length (m_sets m)) = Some ks).
     { rewrite nth_error_app2 by lia. rewrite Nat.sub_diag. reflexivity. }
-    split; [split|split; [exists [ks]; reflexivity|exact Hnew]].
+    split; [split; [|split]|split; [exists [ks]; reflexivity|exact Hnew]]; cycle 2.
+    { cbn [m_sets m_labels]. rewrite H3, map_app. reflexivity. }
     + cbn [m_sets m_map]. intros mk i [Heq|Hin].
       * inversion Heq; subst. exists ks. auto.
       * destruct (H1 _ _ Hin) as [ks' [Hn Hk]]. exists ks'. split; [apply nth_error_app_l; exact Hn|exact Hk].
@@ -338,16 +343,26 @@ Proof.
     constructor; [|exact Hall]. rewrite Hext2. apply nth_error_app_l. exact Hn1.
 Qed.
 
-(* each record is counted under the label values of exactly its own metric key tuple, and two records
-   share a counter set exactly when their tuples are equal *)
+Lemma Forall2_weaken : forall (A B : Type) (R R' : A -> B -> Prop) l l',
+  (forall a b, R a b -> R' a b) -> Forall2 R l l' -> Forall2 R' l l'.
+Proof. intros A B R R' l l' HR H. induction H; constructor; auto. Qed.
+
+Lemma mset_labels_nth : forall m i ks, mset_ok m -> nth_error (m_sets m) i = Some ks ->
+  nth_error (m_labels m) i = Some (metric_label_values ks).
+Proof. intros m i ks [_ [_ H3]] H. rewrite H3, nth_error_map, H. reflexivity. Qed.
+
+(* each record is counted by the counter set (map entry) of exactly its own metric key tuple, whose counters carry
+   the label values made from that tuple; two records share a counter set exactly when their tuples are equal *)
 Lemma metric_own_keys_lemma : forall recs m is,
   metric_run m_init recs = (m, is) ->
-  Forall2 (fun ks i => nth_error (m_sets m) i = Some ks) recs is /\
+  Forall2 (fun ks i => nth_error (m_sets m) i = Some ks /\
+                       nth_error (m_labels m) i = Some (metric_label_values ks)) recs is /\
   (forall j k ks ks' i i', nth_error recs j = Some ks -> nth_error recs k = Some ks' ->
       nth_error is j = Some i -> nth_error is k = Some i' -> (ks = ks' <-> i = i')).
 Proof.
-  intros recs m is H. destruct (metric_run_spec _ _ _ _ mset_ok_init H) as [[_ Hc] [_ Hall]].
-  split; [exact Hall|].
+  intros recs m is H. destruct (metric_run_spec _ _ _ _ mset_ok_init H) as [Hok [_ Hall]].
+  pose proof Hok as [_ [Hc _]].
+  split; [eapply Forall2_weaken; [|exact Hall]; intros ks i Hn; split; [exact Hn|exact (mset_labels_nth _ _ _ Hok Hn)]|].
   intros j k ks ks' i i' Hj Hk Hij Hik.
   pose proof (Forall2_nth_error _ _ _ _ _ _ _ _ Hall Hj Hij) as Hp.
   pose proof (Forall2_nth_error _ _ _ _ _ _ _ _ Hall Hk Hik) as Hq.
